@@ -12,7 +12,7 @@ def build_gram(log):
     lock = open(os.path.join(BUILD, "gram.lock"), "w")
     fcntl.flock(lock, fcntl.LOCK_EX)
     try:
-        p = subprocess.run(["cargo", "build", "--release", "--offline"], cwd="/repo", env=env, stdout=subprocess.PIPE,
+        p = subprocess.run(["cargo", "build", "--release", "--offline"], cwd=os.environ.get("GRAM_REPO", "/repo"), env=env, stdout=subprocess.PIPE,
                            stderr=subprocess.STDOUT, text=True)
     finally:
         fcntl.flock(lock, fcntl.LOCK_UN)
